@@ -6,6 +6,7 @@ taken in a well-formed heap; that part is `C15_atomic` in `Ajson.Props.C05`, on 
 -/
 import Ajson.Model.Mutate
 import Ajson.Proofs.HeapBasics
+import Ajson.Proofs.Atomic
 
 namespace Ajson.Props.C15
 open Ajson Ajson.Heap
@@ -88,5 +89,24 @@ example :
     (h4.appendArray inner [x, root]).2.isErr = true ∧ ((h4.appendArray inner [x, root]).1.nodes == h4.nodes) = true ∧
     (h4.update (some inner) (.arr [x, root])).2.isErr = true ∧ ((h4.update (some inner) (.arr [x, root])).1.nodes == h4.nodes) = true := by
   decide +kernel
+
+/-! ### universally, on sound heaps -/
+
+/-- **every request is accepted, or rejected without a trace**: for EVERY sound acyclic heap (every parsed document, and whatever any
+history of these requests makes of it) and every request of `Edit` — the scalar setters, DeleteKey, DeleteIndex, Delete, AppendArray
+and AppendObject of one node, on any receiver and argument — the call reports success, or it reports an error and the heap afterwards
+IS the heap before; it never ends in a panic (no write to a nil map, no nil dereference). In particular the error exits inside
+`remove` and `appendNode` that lie behind the first modification cannot be taken. -/
+theorem C15_accepted_or_untouched {h : Heap} (hs : Ajson.Proofs.Struct h) (ha : Ajson.Proofs.Acyc h) (e : Ajson.Proofs.Edit)
+    (hnames : ∀ x ∈ e.names, x < h.size) :
+    e.outcome h = .ok () ∨ (∃ er, e.outcome h = .err er ∧ e.run h = h) :=
+  Ajson.Proofs.Edit.settled hs ha e hnames
+
+/-- … at every step of every history that starts from a sound acyclic heap -/
+theorem C15_accepted_or_untouched_at_every_step (pre : List Ajson.Proofs.Edit) (e : Ajson.Proofs.Edit) (post : List Ajson.Proofs.Edit) (h : Heap)
+    (hs : Ajson.Proofs.Struct h) (ha : Ajson.Proofs.Acyc h) (hn : ∀ e' ∈ pre ++ e :: post, ∀ x ∈ e'.names, x < h.size) :
+    e.outcome (pre.foldl Ajson.Proofs.Edit.run h) = .ok () ∨
+      (∃ er, e.outcome (pre.foldl Ajson.Proofs.Edit.run h) = .err er ∧ e.run (pre.foldl Ajson.Proofs.Edit.run h) = pre.foldl Ajson.Proofs.Edit.run h) :=
+  Ajson.Proofs.history_settled (pre ++ e :: post) pre e post h hs ha hn rfl
 
 end Ajson.Props.C15
